@@ -278,13 +278,21 @@ static unsigned int assemble_instr(struct instr *instruc, unsigned char ptr[]) {
 unsigned int nop_padding(uint8_t *buf, unsigned int nop_pad_len) {
 
   uint8_t *ptr = buf;
-  // find nop instruction of a specified length
-  const uint8_t *nop_to_use = FIXED_NOP_LENGTH[nop_pad_len - 1];
+  const unsigned int max_nop_len =
+      sizeof(FIXED_NOP_LENGTH) / sizeof(FIXED_NOP_LENGTH[0]);
   unsigned int j = 0;
-  // assemble nop instruction
-  for (unsigned i = 0; i < nop_pad_len; i++) {
-    *(ptr + j) = nop_to_use[i];
-    j++;
+  // a gap longer than the longest nop is filled with several nops
+  while (j < nop_pad_len) {
+    unsigned int len = nop_pad_len - j;
+    if (len > max_nop_len)
+      len = max_nop_len;
+    // find nop instruction of a specified length
+    const uint8_t *nop_to_use = FIXED_NOP_LENGTH[len - 1];
+    // assemble nop instruction
+    for (unsigned i = 0; i < len; i++) {
+      *(ptr + j) = nop_to_use[i];
+      j++;
+    }
   }
   return nop_pad_len;
 }
